@@ -255,6 +255,9 @@ type pipeStats struct {
 // props selects which aspects are judged: C02 bytes, C03 crash/hang, C07
 // delimitation and snapshots.
 func checkPipeCase(res *Result, pc *pipeCase, alpha []absLine, rng *rand.Rand, full bool, tag string) {
+	if res.saturated("C02", "C07", "C03", "C11") {
+		return
+	}
 	crlf := rng.Intn(4) == 0
 	lines := make([][]byte, len(pc.Inp))
 	lens := make([]int, len(pc.Inp))
